@@ -8,6 +8,7 @@ import (
 	"fmt"
 	"go/token"
 	"go/types"
+	"os"
 	"strings"
 
 	"calcsa/absint"
@@ -43,6 +44,7 @@ func Run(p *load.Program, tier string) *oblig.Set {
 	recoverRule(p, s)
 	pairingRule(p, s)
 	reportTextRule(p, s)
+	caretRule(p, s)
 	return s
 }
 
@@ -145,6 +147,8 @@ func checkDriver(p *load.Program, s *oblig.Set, fn *ssa.Function, pc *ssa.Call) 
 			if c, ok := ins.(ssa.CallInstruction); ok {
 				if n := calleeName(c.Common()); isExec(n) {
 					bad = append(bad, fmt.Sprintf("%s at %s", n, p.Pos(ins.Pos())))
+				} else if cc, isCall := ins.(*ssa.Call); isCall && len(resolveCompile(cc)) > 0 {
+					bad = append(bad, fmt.Sprintf("the compiler (through a function value) at %s", p.Pos(ins.Pos())))
 				}
 			}
 			if iff, ok := ins.(*ssa.If); ok {
@@ -188,9 +192,13 @@ func checkCompileCalls(p *load.Program, s *oblig.Set, fn *ssa.Function, trees ss
 			if !ok {
 				continue
 			}
-			name := calleeName(&c.Call)
-			if !(strings.HasSuffix(name, "node.ByteCode") || strings.HasSuffix(name, "node.ByteCodeNoStck")) {
+			tg := resolveCompile(c)
+			if len(tg) == 0 {
 				continue
+			}
+			name := tg[0].name
+			for _, t := range tg[1:] {
+				name += "|" + t.name[strings.LastIndex(t.name, ".")+1:]
 			}
 			n++
 			k := fmt.Sprintf("%s / tree compiled by %s", key, name[strings.LastIndex(name, ".")+1:])
@@ -607,7 +615,7 @@ func readerRule(p *load.Program, s *oblig.Set) {
 	o := &absint.Oracle{}
 	in := absint.NewInterp(p.SSA, o)
 	var reads []string
-	in.Hooks.Call = func(in *absint.Interp, callee *ssa.Function, args []absint.Val, site ssa.Instruction) (absint.Val, bool) {
+	hook := func(in *absint.Interp, callee *ssa.Function, args []absint.Val, site ssa.Instruction) (absint.Val, bool) {
 		if callee.Pkg != nil && callee.Pkg.Pkg.Path() == "bufio" {
 			var ks []string
 			for _, a := range args[1:] {
@@ -633,27 +641,62 @@ func readerRule(p *load.Program, s *oblig.Set) {
 			f[i] = absint.NewVar("FR."+st.Field(i).Name(), st.Field(i).Type())
 		}
 		recv = nil
-		res, end := in.Run(fn, []absint.Val{&absint.Struct{T: fn.Params[0].Type(), F: f}})
-		single := !o.Next()
-		tu, _ := res.(*absint.Tuple)
-		if end != nil || !single || tu == nil || len(tu.E) != 2 {
-			s.Unk("P3", key, pos, fmt.Sprintf("the reader could not be evaluated as one straight path: %v", end))
-			return
+		// every path through the method: what was read, what is returned, under
+		// which decisions
+		type rpath struct {
+			reads     []string
+			line, err string
+			conds     map[string]bool
 		}
-		line, errv := strings.ReplaceAll(absint.Key(tu.E[0]), "()", ""), strings.ReplaceAll(absint.Key(tu.E[1]), "()", "")
-		whole := len(reads) == 1 && reads[0] == "ReadString(10)" && errv == "ReadString.1" && strings.Contains(line, "ReadString.0")
+		var paths []rpath
+		for n := 0; ; n++ {
+			o.Reset()
+			in = absint.NewInterp(p.SSA, o)
+			in.Hooks.Call = hook
+			reads = nil
+			res, end := in.Run(fn, []absint.Val{&absint.Struct{T: fn.Params[0].Type(), F: f}})
+			tu, _ := res.(*absint.Tuple)
+			if end != nil || tu == nil || len(tu.E) != 2 || n > 64 {
+				s.Unk("P3", key, pos, fmt.Sprintf("the reader could not be evaluated: %v", end))
+				return
+			}
+			cs := map[string]bool{}
+			for k, v := range in.Conds {
+				cs[strings.ReplaceAll(k, "()", "")] = v
+			}
+			paths = append(paths, rpath{append([]string(nil), reads...), strings.ReplaceAll(absint.Key(tu.E[0]), "()", ""), strings.ReplaceAll(absint.Key(tu.E[1]), "()", ""), cs})
+			if !o.Next() {
+				break
+			}
+		}
+		whole := true
+		var lines []string
+		for _, pt := range paths {
+			if !(len(pt.reads) == 1 && pt.reads[0] == "ReadString(10)" && pt.err == "ReadString.1" && strings.Contains(pt.line, "ReadString.0")) {
+				whole = false
+			}
+			lines = append(lines, fmt.Sprintf("(%s, %s) after %v", pt.line, pt.err, pt.reads))
+		}
 		if whole {
 			s.OK("P3", key, pos, "bufio.Reader.ReadString('\\n'): unbounded line length, data returned together with io.EOF; the error is handed on unchanged")
 		} else {
-			s.Bad("P3", key, pos, fmt.Sprintf("the script reader must return each line whole whatever its length and hand back the final unterminated line together with the read error (bufio.Reader.ReadString('\\n')); it reads with %v and returns (%s, %s): a size-limited reader (bufio.Scanner, ReadLine) drops or splits long lines", reads, line, errv))
+			s.Bad("P3", key, pos, fmt.Sprintf("the script reader must return each line whole whatever its length and hand back the final unterminated line together with the read error (bufio.Reader.ReadString('\\n')); it returns %s: a size-limited reader (bufio.Scanner, ReadLine) drops or splits long lines", strings.Join(lines, "; ")))
 		}
 		// P10: Loop puts one line break between the lines of a statement; the
 		// interactive reader delivers lines without terminator, so must this one
-		switch line {
-		case `strings.TrimSuffix(ReadString.0,"\n")`, `strings.TrimRight(ReadString.0,"\n")`:
-			s.OK("P10", key10, pos, line)
-		default:
-			s.Bad("P10", key10, pos, "node.Loop joins the lines of a multi-line statement with a line break of its own; the readline based reader returns lines without their terminator, the script reader returns "+line+": a line break inside a multi-line string literal is doubled in script mode (the same literal is one character per line longer in a script than in the REPL)")
+		var bad []string
+		for _, pt := range paths {
+			if os.Getenv("CALCSA_DEBUG_READER") != "" {
+				fmt.Fprintf(os.Stderr, "reader path: line=%s err=%s conds=%v\n", pt.line, pt.err, pt.conds)
+			}
+			if !stripsBreak(pt.line, pt.conds) {
+				bad = append(bad, pt.line)
+			}
+		}
+		if len(bad) == 0 {
+			s.OK("P10", key10, pos, fmt.Sprintf("%d path(s): %s", len(paths), strings.Join(lines, "; ")))
+		} else {
+			s.Bad("P10", key10, pos, "node.Loop joins the lines of a multi-line statement with a line break of its own; the readline based reader returns lines without their terminator, the script reader returns "+strings.Join(bad, " / ")+": a line break inside a multi-line string literal is doubled in script mode (the same literal is one character per line longer in a script than in the REPL)")
 		}
 	}
 	_ = recv
@@ -911,4 +954,45 @@ func earlyExits(b *ssa.BasicBlock, trees ssa.Value) []token.Pos {
 		}
 	}
 	return out
+}
+
+// stripsBreak: on a path with the given decisions the returned line is the
+// text read by ReadString('\n') without its final line break: either a library
+// trim of exactly that break, or the text itself where it is known not to end
+// in one, or the text less its last byte where it is known to end in one.
+func stripsBreak(line string, conds map[string]bool) bool {
+	const L = "ReadString.0"
+	switch line {
+	case `strings.TrimSuffix(` + L + `,"\n")`, `strings.TrimRight(` + L + `,"\n")`:
+		return true
+	}
+	facts := map[string]bool{}
+	for k, v := range conds {
+		if !v {
+			k = "!" + k
+		}
+		facts[absint.CanonCmp(k)] = true
+	}
+	any := func(ks ...string) bool {
+		for _, k := range ks {
+			if facts[k] {
+				return true
+			}
+		}
+		return false
+	}
+	last := "index(" + L + ",(len(" + L + ")-1))"
+	n := "len(" + L + ")"
+	nonEmpty := any("<(0,"+n+")", "!<("+n+",1)", "!==("+n+",0)", "!==(0,"+n+")", `!==(`+L+`,"")`, `!==("",`+L+`)`)
+	empty := any("!<(0,"+n+")", "<("+n+",1)", "==("+n+",0)", "==(0,"+n+")", `==(`+L+`,"")`, `==("",`+L+`)`)
+	suffix := `strings.HasSuffix(` + L + `,"\n")`
+	endsNL := any(suffix) || (nonEmpty && any("==("+last+",10)", "==(10,"+last+")"))
+	notNL := empty || any("!"+suffix, "!==("+last+",10)", "!==(10,"+last+")")
+	switch line {
+	case L:
+		return notNL
+	case "slice(" + L + ",nil,(" + n + "-1),nil)":
+		return endsNL
+	}
+	return false
 }
